@@ -258,6 +258,7 @@ type generator struct {
 	closure map[string]map[string]bool // fragment → fragments merged into the scope that spreads it
 	fragIdx map[string]int
 	nulls    int
+	dups     int
 	plan     map[string]string // variable → "type:value" it stands for
 	values   map[string]VarVal // the request's variable map
 	varOrder []string
@@ -379,6 +380,11 @@ func (g *generator) field(scope string, depth int, minFrag int) *GSel {
 	}
 	name := hx.Pick(g.r, kinds)
 	s := &GSel{Kind: "field", Alias: g.alias(), Name: name, Dir: g.directive()}
+	// fields without arguments may go without an alias: their response key is the field name, and
+	// two of them in one (merged) selection set are always mergeable
+	if k := kindOf(name); len(k.Args) == 0 && g.r.Chance(1, 3) {
+		s.Alias = ""
+	}
 	switch name {
 	case "n", "i", "l":
 		if g.r.Chance(5, 6) {
@@ -496,6 +502,25 @@ func (g *generator) selSet(scope string, depth int, used map[string]bool, minFra
 			out = append(out, s)
 		default:
 			out = append(out, g.field(scope, depth, minFrag))
+		}
+		// the same response key again in this very selection set: same field, identical arguments
+		// (validation's merge rule), but its own directive and its own, different sub-selections — the
+		// executor merges them, the cost is still the sum over every field selection
+		if last := out[len(out)-1]; last.Kind == "field" && last.Name != "__typename" && g.budget > 0 && g.r.Chance(1, 7) {
+			for n := g.r.Range(1, 2); n > 0; n-- {
+				g.budget--
+				dup := &GSel{Kind: "field", Alias: last.Alias, Name: last.Name, Args: append([]GArg{}, last.Args...), Dir: g.directive()}
+				if k := kindOf(last.Name); k != nil && k.Ret != "" {
+					dup.Subs = g.selSet(k.Ret, depth+1, map[string]bool{}, minFrag)
+				}
+				g.dups++
+				if g.r.Bool() || len(out) < 2 {
+					out = append(out, dup)
+				} else { // not adjacent
+					at := g.r.Intn(len(out) - 1)
+					out = append(out[:at], append([]*GSel{dup}, out[at:]...)...)
+				}
+			}
 		}
 	}
 	return out
